@@ -19,6 +19,7 @@
 #include <queue>
 
 #include <dispenso/detail/timed_task_impl.h>
+#include <dispenso/detail/verif_hooks.h>
 #include <dispenso/priority.h>
 #include <dispenso/timing.h>
 
@@ -56,7 +57,9 @@ class TimedTask {
    * progress will complete).
    **/
   void cancel() {
+    DISPENSO_VERIF_POINT("tt.cancel.ttr.store", impl_.get());
     impl_->timesToRun.store(0, std::memory_order_release);
+    DISPENSO_VERIF_POINT("tt.cancel.flags.or", impl_.get());
     impl_->flags.fetch_or(detail::kFFlagsCancelled, std::memory_order_release);
   }
 
@@ -66,6 +69,7 @@ class TimedTask {
    * schedulable and any function resources are expected to outlive any other copy of the task.
    **/
   void detach() {
+    DISPENSO_VERIF_POINT("tt.detach.flags.or", impl_.get());
     impl_->flags.fetch_or(detail::kFFlagsDetached, std::memory_order_release);
   }
 
@@ -75,6 +79,7 @@ class TimedTask {
    * @return the count of calls made this far to the underlying function.
    **/
   size_t calls() const {
+    DISPENSO_VERIF_POINT("tt.calls.count.load", impl_.get());
     return impl_->count.load(std::memory_order_acquire);
   }
 
@@ -86,15 +91,19 @@ class TimedTask {
    *
    **/
   ~TimedTask() {
+    DISPENSO_VERIF_POINT("tt.dtor.flags.load", impl_.get());
     if (!impl_ || impl_->flags.load(std::memory_order_acquire) & detail::kFFlagsDetached) {
       return;
     }
     cancel();
+    DISPENSO_VERIF_POINT("tt.dtor.inprogress.load", impl_.get());
     while (impl_->inProgress.load(std::memory_order_acquire)) {
+      DISPENSO_VERIF_POINT("tt.dtor.inprogress.load", impl_.get());
     }
     // Now we can safely destroy the underlying function.  We do this here because we can't risk
     // that func may call code in it's destructor that may no longer be relevant after this
     // TimedTask destructor completes.
+    DISPENSO_VERIF_POINT("tt.dtor.func.clear", impl_.get());
     impl_->func = {};
   }
 
